@@ -7,6 +7,7 @@ pub use mmv_base::{capacity_of, caps_for_kind};
 pub fn run_case(case: &Case, cx: &mut Ctx) {
     match case.engine {
         Engine::MapHist => mmv_maphist::run_dyn(case, cx),
+        Engine::SetHist => mmv_sethist::run_dyn(case, cx),
         _ => {}
     }
 }
